@@ -46,7 +46,7 @@ func init() {
 		Rule: "case = interleaved history of Add, queries and Merge on dataset.Dataset (duplicates, negatives, unsorted arrival, additions after queries, merges of two datasets - also a dataset with itself and the same argument twice), reference = the harness's own sorted copy; Lower/UpperQuantile must equal the order statistic at floor/ceil of q(n-1) " +
 			"(rank accepted both as the float product and as the exact product), Quantile == lower, NaN when empty or q outside [0,1], Min/Max/Count exact, Sum within the compensated-sum bound, Merge == adding all values; besides whole checkpoints (all queries in a fixed order) the history holds single queries (one of Sum/Count/Lower/Upper/Quantile/Min/Max, q drawn from a few values reused during the case) answered on their own right after additions, and a quarter of the cases draw every value from 2-4 distinct values. Non-trivial = history with an addition after a query and a merge; distinct = hash of the history.",
 		Cases:       core.Scale(120000, 3000000),
-		Mandatory:   []string{"oracle.quantile_checks", "event.add_after_query", "event.merge", "oracle.nan_checks", "oracle.sum_checks", "oracle.minmax_before_quantile_queries", "sign_mode.all_negative", "adversarial_sum_cases", "oracle.single_query_checks", "small_pool_cases", "event.merge_with_itself_after_query"},
+		Mandatory:   []string{"oracle.quantile_checks", "event.add_after_query", "event.merge", "oracle.nan_checks", "oracle.sum_checks", "oracle.minmax_before_quantile_queries", "sign_mode.all_negative", "adversarial_sum_cases", "oracle.single_query_checks", "small_pool_cases", "event.merge_with_itself_after_query", "huge_value_cases", "oracle.sum_checks.overflowed_same_sign"},
 		Assumptions: []string{"q = NaN is outside the stated domain and not sent"},
 		Run:         runC20,
 	})
@@ -710,7 +710,16 @@ func runC20(c *core.Ctx) {
 	if adversarial {
 		c.Count("adversarial_sum_cases", 1)
 	}
+	// one case in forty holds same-signed values close to the top of the float64 range: the sum leaves the range
+	// after a few additions (and must then be the infinity of that sign, whatever is added later)
+	huge := !adversarial && signMode != 0 && r.P(0.08)
+	if huge {
+		c.Count("huge_value_cases", 1)
+	}
 	drawValue0 := func() float64 {
+		if huge {
+			return r.LogUniform(1e306, 1.7e308)
+		}
 		if adversarial {
 			// a large value first, then many small ones that do not move the running sum individually
 			advN++
@@ -831,13 +840,9 @@ func runC20(c *core.Ctx) {
 			}
 		}
 		// sum
-		exact, absSum := bigSum(d.ref)
 		got := d.d.Sum()
 		c.Count("oracle.sum_checks", 1)
-		bound := 16*0x1p-53*absSum + 64*float64(n+1)*5e-324
-		if !(math.Abs(got-exact) <= bound) {
-			c.Failf("sum", "%s: Sum()=%v, exact %v, |diff| %g > bound %g", name, got, exact, math.Abs(got-exact), bound)
-		}
+		judgeSum(c, name, "", got, d.ref)
 		queried = true
 	}
 	// single queries in any order between additions: each one is answered against the reference on its own,
@@ -882,11 +887,7 @@ func runC20(c *core.Ctx) {
 		c.Count("single."+what, 1)
 		switch kind {
 		case 0:
-			exact, absSum := bigSum(d.ref)
-			bound := 16*0x1p-53*absSum + 64*float64(n+1)*5e-324
-			if !(math.Abs(got-exact) <= bound) {
-				c.Failf("sum", "%s: Sum()=%v asked on its own, exact %v, |diff| %g > bound %g", name, got, exact, math.Abs(got-exact), bound)
-			}
+			judgeSum(c, name, " asked on its own", got, d.ref)
 		case 1:
 			if got != float64(n) {
 				c.Failf("count", "%s.Count=%v after %d additions", name, got, n)
@@ -999,6 +1000,45 @@ func runC20(c *core.Ctx) {
 	if addAfterQuery && merged {
 		c.NonTrivial()
 		c.Sample(map[string]interface{}{"values": len(main.ref), "first": trunc(main.ref, 8), "merges": len(others)})
+	}
+}
+
+// judgeSum compares a reported sum with the exact one. While the total of |v| stays below the float64 range the
+// compensated-sum bound applies. Beyond it: same-signed values whose exact sum is out of range must give the
+// infinity of that sign (every partial sum is monotone, so neither a finite number nor NaN is "accurate to
+// rounding"); with mixed signs a partial sum may legitimately have overflowed, and nothing is asserted.
+func judgeSum(c *core.Ctx, name, how string, got float64, ref []float64) {
+	exact, absSum := bigSum(ref)
+	n := len(ref)
+	if absSum < math.MaxFloat64/4 {
+		bound := 16*0x1p-53*absSum + 64*float64(n+1)*5e-324
+		if !(math.Abs(got-exact) <= bound) {
+			c.Failf("sum", "%s: Sum()=%v%s, exact %v, |diff| %g > bound %g", name, got, how, exact, math.Abs(got-exact), bound)
+		}
+		return
+	}
+	pos, neg := false, false
+	for _, v := range ref {
+		if v > 0 {
+			pos = true
+		} else if v < 0 {
+			neg = true
+		}
+	}
+	if pos && neg {
+		c.Count("oracle.sum_checks.skipped_mixed_sign_overflow", 1)
+		return
+	}
+	c.Count("oracle.sum_checks.near_or_beyond_float64_range", 1)
+	if math.IsInf(exact, 0) {
+		c.Count("oracle.sum_checks.overflowed_same_sign", 1)
+		if got != exact {
+			c.Failf("sum.overflow", "%s: Sum()=%v%s, the exact sum of %d same-signed values is beyond the float64 range (%v expected)", name, got, how, n, exact)
+		}
+		return
+	}
+	if got != got || !(math.Abs(got-exact) <= 16*0x1p-53*math.Abs(exact)) && !math.IsInf(got, 0) {
+		c.Failf("sum", "%s: Sum()=%v%s, exact %v", name, got, how, exact)
 	}
 }
 
